@@ -384,7 +384,7 @@ def coq_case(c, init, fixed, name):
             txs.append(coq_tx(t, hh))
             if t.get("vm") and not t["replayof"]:
                 vms.append("(%s, %s)" % (Ns(hh), coq_vm(t["vm"])))
-        blocks.append("{| b_no := %s; b_validator := %s; b_txs := [%s] |}" % (Ns(b["no"]), "true" if b["validator"] else "false", ";\n    ".join(txs)))
+        blocks.append("{| b_no := %s; b_validator := %s; b_txs := [%s] |}" % (Ns(b.get("no", 0)), "true" if b.get("validator") else "false", ";\n    ".join(txs)))
     cids = ["(%s, %s, %s)" % (Ns(v[0]), Ns(v[1]), Ns(int(k))) for k, v in sorted(c["cids"].items())]
     return ("Definition %s : case := {| k_cfg := %s;\n  k_chain_mode := %s; k_coinbase := %s;\n  k_init := mk_state [%s] [%s] %s [%s];\n"
             "  k_cids := [%s]; k_vm := [%s];\n  k_ids := [%s]; k_names := [%s]; k_ckeys := [%s];\n  k_blocks := [%s] |}.\n" % (
@@ -613,3 +613,149 @@ def stats(cases, obs):
                 st["blocks_rejected"] += (not o["accepted"]) and not o.get("aborted")
     st["distinct_classes"] = len(classes)
     return st
+
+
+# ------------------------------------------------------------------ corpus + shared check body
+def T(kind, frm, nonce, **kw):
+    t = {"kind": kind, "from": frm, "to": 0, "nonce": nonce, "amount": "0", "plen": 20 if kind in GOV else 0, "gaslimit": 0,
+         "signer": frm, "chainok": True, "replayof": 0, "name": 0, "dest": 0, "cid": 0, "force": False, "fddeny": False}
+    t.update(kw)
+    return t
+
+
+def corpus_cases(pid):
+    """Hand-written edge cases, run first.  ids are assigned by the caller."""
+    base = {"version": 2, "zerofee": False, "gasprice": str(50 * 10 ** 9), "coinbase": 30, "cids": {}, "ckeys": [],
+            "ids": [1, 2, 3, 10, 11, 12, 30], "names": [2, 200, 201],
+            "fund": [["10", str(30000 * AERGO)], ["11", str(30000 * AERGO)], ["12", str(5 * AERGO)]]}
+    out = []
+
+    def case(mode, blocks, tag, **kw):
+        c = json.loads(json.dumps(base))
+        c.update({"mode": mode, "blocks": blocks, "tag": tag})
+        c.update(kw)
+        out.append(c)
+
+    # F18: setOwner(<sender itself>) after a name was bought: the aergo.name balance is credited to a
+    # copy of the sender and overwritten by the executor's own sender object
+    case("exec", [{"no": 5, "validator": False, "txs": [
+        T("namecreate", 11, 1, name=200, amount=str(AERGO)), T("setowner", 10, 1, dest=10), T("transfer", 10, 2, to=11, amount="5")]}], "f18")
+    # F18 variant: owner := aergo.name itself, afterwards every name price is burnt
+    case("exec", [{"no": 5, "validator": False, "txs": [
+        T("setowner", 10, 1, dest=2), T("namecreate", 11, 1, name=200, amount=str(AERGO)),
+        T("namecreate", 10, 2, name=201, amount=str(2 * AERGO))]}], "f18")
+    # owner = third account, owner = later sender
+    case("exec", [{"no": 5, "validator": False, "txs": [
+        T("setowner", 10, 1, dest=12), T("namecreate", 11, 1, name=200, amount=str(AERGO)),
+        T("namecreate", 12, 1, name=201, amount=str(AERGO))]},
+        {"no": 6, "validator": True, "txs": [T("nameupdate", 11, 2, name=200, dest=10, amount=str(AERGO)),
+                                             T("transfer", 10, 2, to=200, amount="77")]}], "names")
+    # stake / unstake straddling the staking delay, no coinbase, zero fee and fee regimes
+    for zf, cb in ((False, 0), (True, 30), (False, 30)):
+        case("exec", [{"no": 10, "validator": False, "txs": [T("stake", 10, 1, amount=str(10000 * AERGO)), T("unstake", 10, 2, amount=str(10000 * AERGO))]},
+                      {"no": 10 + STAKE_DELAY - 1, "validator": False, "txs": [T("unstake", 10, 2, amount=str(10000 * AERGO))]},
+                      {"no": 10 + STAKE_DELAY, "validator": False, "txs": [T("unstake", 10, 2, amount=str(5000 * AERGO)),
+                                                                           T("unstake", 10, 2, amount=str(10000 * AERGO)),
+                                                                           T("transfer", 11, 1, to=1, amount="12345")]}],
+             "stake", zerofee=zf, coinbase=cb)
+    if pid == "C04":
+        ok = lambda n, frm=10: T("transfer", frm, n, to=11, amount="1000")
+        # F23: block 0 fails during execution (all signatures valid) -> its verification result stays
+        # pending; block 1 carries a transaction signed with the wrong key
+        bad_exec = T("transfer", 12, 9, to=11, amount="1", force=True)          # nonce too high, kept in the body
+        forged = T("transfer", 11, 1, to=10, amount=str(1000 * AERGO), signer=10)  # 11's funds, signed by 10
+        case("chain", [{"txs": [ok(1), bad_exec]}, {"txs": [ok(1), forged]}], "f23")
+        # the converse: pending result says "failed" -> a perfectly valid next block is refused
+        forged2 = T("transfer", 11, 1, to=10, amount="5", signer=10)
+        case("chain", [{"txs": [forged2, bad_exec]}, {"txs": [ok(1)]}], "f23")
+        # replay of an included transaction, in the next block
+        case("chain", [{"txs": [ok(1), ok(2)]}, {"txs": [dict(ok(1), replayof=1, force=True)]}, {"txs": [ok(3)]}], "replay")
+        case("chain", [{"txs": [ok(1), dict(ok(2), chainok=False, force=True)]}], "chainid")
+        case("chain", [{"txs": [ok(1), dict(ok(2), signer=11)]}], "forged")
+    return out
+
+
+FOCUS = {
+    "C01": {},
+    "C03": {"fail": 0.4, "fails": ["balance", "nonce_high", "nonce_low", "chain", "balance"],
+            "weights": {"call": 16, "deploy": 10, "feedeleg": 8}},
+    "C04": {"fail": 0.4, "fails": ["nonce_low", "nonce_high", "chain", "signer", "replay", "signer", "replay"]},
+}
+
+
+def run_check(ctx, pid):
+    pr = ctx.prove()
+    ctx.cov["trusted_base"] = [
+        "Coq 8.16.1 kernel + vm_compute, std++ gmap", "Go toolchain, cgo-free overlay build of package chain",
+        "scripted VM stub (harness/engines/ledger/zz_vmstub_ledger.go.txt): effects = transfers out of the callee + writes to the callee's storage, all-or-nothing, fee bounded by the payer's balance",
+        "secp256k1 / btcec (signature oracle: the generator knows which key signed)", "case generator and comparison lib/g7_ledger.py",
+    ]
+    ctx.assumptions = [
+        "balances of the initial state are non-negative, gas price > 0, nonces below 2^64",
+        "every executed transaction is sent from a plain (key) account: no code, not the address being created, not aergo.name itself for v1setOwner",
+        "VM oracle discipline (see trusted base); votes / enterprise / multicall / redeploy transactions are outside the Ledger model",
+        "Snapshot/Rollback of the block state restores the saved state (C12 proves the undo log)",
+    ]
+    binp = build_engine(ctx)
+    fixed = f18_fixed(ctx.repo)
+    quick = ctx.tier == "quick"
+    cases = []
+    for c in corpus_cases(pid):
+        c["id"] = len(cases) + 1
+        cases.append(c)
+    nrand = 32 if quick else 700
+    chain_every = {"C01": 5, "C03": 4, "C04": 2}[pid]
+    for i in range(nrand):
+        mode = "chain" if i % chain_every == chain_every - 1 else "exec"
+        cases.append(gen_case(ctx.rng, len(cases) + 1, mode, FOCUS[pid], maxtx=40))
+    obs = run_engine(ctx, binp, cases, "cases")
+    plain = [c for c in cases if c.get("tag") != "f23"]
+    mod = eval_model(ctx, cases, obs, fixed, "m")
+    bad = [c for c in cases if not compare_chk(go_vectors(c, obs[c["id"]]), mod[c["id"]])]
+    modf = eval_model(ctx, bad, obs, fixed, "mfull", full=True) if bad else {}
+    corr = []
+    pred = []
+    for c in cases:
+        o = obs[c["id"]]
+        for f in predicates(c, o):
+            pred.append((c, f))
+        if c in bad:
+            d = compare(c, go_vectors(c, o), modf[c["id"]])
+            if d is None:
+                continue
+            if c.get("tag") == "f23" and d.get("observable") == "accepted":
+                pred.append((c, ("C04", "F23-stale-sign-verify",
+                                 "block verdict differs from the signatures of the block itself: the validator consumed the verification "
+                                 "result left pending by the previous block, which failed during execution (engine accepted=%s, model=%s)" % (d["engine"], d["model"]),
+                                 {"diff": d})))
+            else:
+                corr.append((c, d))
+    st = stats(cases, obs)
+    ctx.cov["evaluations"] = st["txs"] + st["blocks"]
+    ctx.cov["traces_validated_against_impl"] = st["txs"] + st["blocks"]
+    ctx.cov["distinct_nontrivial"] = st["distinct_classes"]
+    ctx.cov["rule"] = ("one evaluation = one executed transaction or block whose full observation vector (outcome, fee, gas, status, BpReward, "
+                       "balance/nonce/code/existence of every known account, staking records and total, name owners/destinations, contract "
+                       "storage cells) equals the model's; distinct = distinct (tx kind, outcome, error text, gas regime, zero-fee) classes observed")
+    ctx.cov["input_distribution"] = st
+    for c in cases[:2]:
+        ctx.sample({"case": {k: c[k] for k in ("mode", "version", "zerofee", "coinbase")}, "first_tx": c["blocks"][0]["txs"][0],
+                    "first_obs": {k: obs[c["id"]][1].get(k) for k in ("res", "errs", "fee", "status")}})
+    # ---- decide: direct predicate failures of THIS property first
+    mine = [(c, f) for c, f in pred if f[0] == pid]
+    seen = set()
+    for c, f in mine:
+        key = "%s:%s" % (pid, f[1])
+        if pid == "C01" and f[1] == "supply":
+            alias = any(t["kind"] == "setowner" and t["dest"] in (t["from"], 2) for b in c["blocks"] for t in b["txs"])
+            key = "C01:F18-name-owner-alias" if (alias and not fixed) else "C01:supply"
+        if key in seen:
+            continue
+        seen.add(key)
+        ctx.finding(key, f[2], {"case": c, "detail": f[3]})
+    if not pr["ok"] and not mine:
+        ctx.violation("proof obligation no longer checks: %s" % pr["broken"], {"theorem_or_file": pr["broken"], "log": pr["log"][-3000:]}, no_input=True)
+    if corr and not mine:
+        c, d = corr[0]
+        ctx.violation("correspondence broken: model and implementation differ (%s)" % d.get("observable", d["what"]),
+                      {"difference": d, "case": c, "other_differing_cases": len(corr) - 1}, no_input=True)
